@@ -62,15 +62,17 @@ def gen_blob(r, n=None):
     return bytes(b)
 
 
-def gen_desc(r, max_total=200, enc=False):
+def gen_desc(r, max_total=210, enc=False):
     ntags = r.choice([0, 1, 1, 2, 3, 6])
     ids = r.sample([t for t in TAG_IDS if t != 0xC2], min(ntags, len(TAG_IDS) - 1))
     d = {}
     total = 0
     for t in ids:
-        ln = r.choice([0, 1, 1, 2, 4, 100, 209, 255])
-        if total + 2 + ln > max_total:
+        ln = r.choice([0, 1, 1, 2, 4, 100, 127, 128, 129, 180, 203, 255])
+        if total + 2 + ln > max_total - 5:     # 5: room for the ENC tag added below
             ln = r.choice([0, 1, 2])
+            if total + 2 + ln > max_total - 5:
+                break
         total += 2 + ln
         d[t] = bytes(r.randrange(256) for _ in range(ln))
     if enc:
@@ -80,13 +82,20 @@ def gen_desc(r, max_total=200, enc=False):
     elif r.random() < 0.15:
         # ENC tag present but not the one-byte SESSIONKEY value (incl. values that are 2 as integers)
         d[0xC2] = r.choice([b"\x00", b"\x01", b"", b"\x02\x00", b"\x00\x02", b"\x00\x00\x02", b"\x02\x02"])
+    size = sum(2 + len(v) for v in d.values())
+    if max_total == 210 and size < 210 and r.random() < 0.12:
+        # fill the tag list up to the largest size a directory entry can hold (45 + 210 = 255)
+        ks = [t for t in d if t != 0xC2 and len(d[t]) + (210 - size) <= 255]
+        if ks:
+            t = r.choice(ks)
+            d[t] = d[t] + bytes(r.randrange(256) for _ in range(210 - size))
     return d
 
 
 def gen_comp(r, enc=False, oversize=False):
     blob = gen_blob(r)
     alen = r.choice([None, None, 1, max(1, len(blob) // 2), max(1, len(blob) - 1), len(blob)])
-    desc = gen_desc(r, 300 if oversize else 200, enc)
+    desc = gen_desc(r, 300 if oversize else 210, enc)
     return (desc, blob, alen, enc)
 
 
